@@ -250,8 +250,17 @@ def peer_send(seed, idx, fam="peer_send"):
     # drain: let everything be acknowledged if possible
     for _ in range(12):
         st += [sleep(lat + 10), peer("ack", wnd=1 << 20)]
-    end = rng.choice(["shutdown", "drop", "peerfin", "silent", "reset"])
-    if end == "shutdown":
+    end = rng.choice(["shutdown", "drop", "peerfin", "silent", "reset", "peerfin_early"])
+    if end == "peerfin_early":
+        # the peer closes first while our last data is still unacknowledged; our answering FIN is lost once; the peer
+        # then acknowledges the data (not the FIN it never saw): the FIN has to be repeated
+        st = st[:-24]      # (without the drain)
+        st += [{"op": "write", "ep": "a", "n": rng.choice([1, mss, 3 * mss])},
+               rule(**{"from": "A", "type": "fin", "nth": 1, "act": "drop"}),
+               peer("fin"), sleep(lat + 10), peer("ack"), sleep(rng.choice([lat + 10, 100000])), peer("ack")]
+        for _ in range(6):
+            st += [sleep(rng.choice([250000, 450000])), peer("ack")]
+    elif end == "shutdown":
         st += [{"op": "shutdown", "ep": "a"}, sleep(lat + 10), peer("ack"), peer("fin"), sleep(lat + 10), peer("ack")]
     elif end == "drop":
         st += [{"op": "drop", "ep": "a"}, sleep(lat + 10), peer("ack"), peer("fin"), sleep(lat + 10), peer("ack")]
